@@ -154,7 +154,15 @@ def coq_build(targets, timeout=1500):
     """Full .vo build of the given targets through coq_makefile. Returns (ok, log)."""
     rc, out, err = sh([os.path.join(VERIF, "bin", "coqbuild")] + list(targets), timeout=timeout + 600,
                       env={"COQ_TIMEOUT": str(timeout)})
+    _coq_infra(rc, out + err)
     return rc == 0, out + err
+
+
+def _coq_infra(rc, text):
+    """coqbuild exit 3 (lock/makefile), 124 (timeout), or a failure without any Coq error text
+    is an infrastructure failure, not a broken proof."""
+    if rc in (3, 124, 137) or (rc != 0 and "Error" not in text):
+        raise Infra("Coq build did not run to a verdict (rc=%d): %s" % (rc, text[-800:]))
 
 
 def coq_error_summary(logtext):
@@ -185,6 +193,7 @@ def coq_props(prop_dir, allow=()):
         os.remove(vo)
     rc, out, err = sh([os.path.join(VERIF, "bin", "coqbuild"), prop_dir + "/Props.vo"], timeout=2400)
     text = out + err
+    _coq_infra(rc, text)
     if rc != 0:
         return False, {}, text
     src = open(os.path.join(COQ, prop_dir, "Props.v")).read()
